@@ -5,7 +5,7 @@
 set -u
 ID=$1; NAME=$2; WT=/tmp/mut/$NAME; DEST=/verif/seeded/$NAME; VF=/var/tmp/vf_$NAME
 mkdir -p $DEST; cp $WT/_seeded/patch.diff $WT/_seeded/demo.py $WT/_seeded/meta.json $DEST/ 2>/dev/null
-rm -rf $VF; cp -r /verif $VF; rm -rf $VF/.git $VF/replays
+rm -rf $VF; cp -r ${VF_SNAPSHOT:-/verif} $VF; rm -rf $VF/.git $VF/replays
 NV_REPO=$WT python3 $VF/check.py $ID --tier quick > $DEST/check_scratch.out 2>&1; CK=$?
 grep -E "VIOLATION|^OK|KNOWN" $DEST/check_scratch.out | head -3
 mkdir -p $DEST/replays; cp $VF/replays/*.json $DEST/replays/ 2>/dev/null | true
